@@ -74,6 +74,7 @@ impl ParseOptions {
             initial: input,
             input: LocatingSlice::new(input),
             renderer: self.error_style.clone(),
+            failed: false,
             _phantom: PhantomData,
         }
     }
@@ -132,6 +133,8 @@ struct ParsedIter<'i, Out, Sep, P, Q, E> {
     initial: &'i str,
     input: LocatingSlice<&'i str>,
     renderer: annotate_snippets::Renderer,
+    /// Set once an error is returned, the iterator ends after that.
+    failed: bool,
     _phantom: PhantomData<(Out, Sep, E)>,
 }
 
@@ -145,9 +148,14 @@ where
 
     fn next(&mut self) -> Option<Self::Item> {
         use winnow::stream::Stream as _;
+        if self.failed {
+            // the input is left at the failed position, parsing again would only repeat the error forever.
+            return None;
+        }
         let start = self.input.checkpoint();
         self.next_impl()
             .map_err(|e| {
+                self.failed = true;
                 ParseError::new(
                     self.renderer.clone(),
                     self.initial,
